@@ -254,7 +254,57 @@ func classifyRange(mr *MapRange) rangeClass {
 	}
 	if len(appends) == 0 && len(otherCalls) == 0 && returns == 0 && len(unknown) == 0 && (mapUpdates > 0 || stores >= 0) {
 		if mapUpdates > 0 {
-			return rangeClass{"set/map-build", "only map insertions (keyed), no order-dependent effect"}
+			// a map built while ranging a map is order-insensitive only if two iterations
+			// cannot compete for one key with different values: either the value written is the
+			// same whatever the iteration (a set: constant / empty struct), or the key written is
+			// this iteration's own range key (distinct per iteration).
+			competing := ""
+			for b := range mr.Body {
+				for _, in := range b.Instrs {
+					mu, ok := in.(*ssa.MapUpdate)
+					if !ok {
+						continue
+					}
+					setLike := false
+					switch v := mu.Value.(type) {
+					case *ssa.Const:
+						setLike = true
+					default:
+						if st, isStruct := v.Type().Underlying().(*types.Struct); isStruct && st.NumFields() == 0 {
+							setLike = true
+						}
+					}
+					var injective func(v ssa.Value, depth int) bool
+					injective = func(v ssa.Value, depth int) bool {
+						if depth > 6 {
+							return false
+						}
+						v = unconv(v)
+						if v == keyV {
+							return true
+						}
+						if b, isBin := v.(*ssa.BinOp); isBin && b.Op == token.ADD {
+							if bt, isBasic := b.Type().Underlying().(*types.Basic); isBasic && bt.Info()&types.IsString != 0 {
+								invariant := func(x ssa.Value) bool {
+									in, isIn := x.(ssa.Instruction)
+									return !isIn || !mr.Body[in.Block()]
+								}
+								// key ++ fixed text, or fixed text ++ key
+								return injective(b.X, depth+1) && invariant(b.Y) || injective(b.Y, depth+1) && invariant(b.X)
+							}
+						}
+						return false
+					}
+					ownKey := keyV != nil && injective(mu.Key, 0)
+					if !setLike && !ownKey {
+						competing = ir.Desc(mu.Map) + "[" + trunc(ir.Desc(mu.Key), 60) + "]"
+					}
+				}
+			}
+			if competing == "" {
+				return rangeClass{"set/map-build", "only map insertions whose key is the iteration's own key or whose value is iteration-independent"}
+			}
+			return rangeClass{"unknown", "map insertion " + competing + " with a key derived from the element and an element-dependent value: which iteration wins depends on map order"}
 		}
 	}
 	return rangeClass{"unknown", strings.Join(otherCalls, ",")}
